@@ -425,3 +425,54 @@ Qed.
 Theorem bexec_depth : forall fs d ss en p r tr,
   BExec fs d ss en p r tr -> Forall (fun ev => d <= ev_depth ev) tr.
 Proof. intros fs. apply (proj1 (depth_all fs)). Qed.
+
+(* ------------------------------------------------------------------ mixed command scripts: a stop consumes the pending step
+   (DapAdapterEvalHookImpl::call: `if stop || step_stop { self.step = None; ... }` - whatever made the adapter stop, the step
+   request that was outstanding is gone; the only step state after the stop is the one the user's next command installs) *)
+Theorem stop_clears_step : forall B pol s n acc ev,
+  should_stop B s ev = true ->
+  dbg_hook B pol (s, n, acc) ev = (after_cmd (pol n ev) ev, S n, ev :: acc).
+Proof. intros B pol s n acc ev H. unfold dbg_hook. rewrite H. reflexivity. Qed.
+
+Theorem continue_clears_step : forall B pol s n acc ev,
+  should_stop B s ev = true -> pol n ev = Continue ->
+  dbg_hook B pol (s, n, acc) ev = (None, S n, ev :: acc).
+Proof. intros B pol s n acc ev H Hc. rewrite stop_clears_step by exact H. rewrite Hc. reflexivity. Qed.
+
+(* what happens after a stop does not depend on the step request that was pending when the stop happened *)
+Theorem stop_forgets_pending_step : forall B pol s s' n ev rest,
+  should_stop B s ev = true -> should_stop B s' ev = true ->
+  run_dbg B pol s n (ev :: rest) = run_dbg B pol s' n (ev :: rest).
+Proof. intros B pol s s' n ev rest H H'. simpl. rewrite H, H'. reflexivity. Qed.
+
+Lemma run_dbg_continue_from B pol : forall tr n,
+  (forall m e, n <= m -> pol m e = Continue) ->
+  run_dbg B pol None n tr = filter (fun ev => mem (ev_line ev) B) tr.
+Proof.
+  induction tr as [|ev tr IH]; intros n Hc; simpl; [reflexivity|].
+  unfold should_stop; simpl. rewrite orb_false_r.
+  destruct (mem (ev_line ev) B); simpl.
+  - rewrite (Hc n ev (Nat.le_refl n)). simpl. rewrite IH; [reflexivity|].
+    intros m e Hm. apply Hc. lia.
+  - apply IH. exact Hc.
+Qed.
+
+(* Continue at ANY stop (breakpoint hit while an Over/Out request is outstanding included) and from then on:
+   the remaining stops are exactly the start events of breakpoint lines - no stop on a line without breakpoint *)
+Theorem continue_runs_to_breakpoints : forall B pol s n ev rest,
+  should_stop B s ev = true ->
+  (forall m e, n <= m -> pol m e = Continue) ->
+  run_dbg B pol s n (ev :: rest) = ev :: filter (fun e => mem (ev_line e) B) rest.
+Proof.
+  intros B pol s n ev rest H Hc. simpl. rewrite H. rewrite (Hc n ev (Nat.le_refl n)). simpl.
+  rewrite run_dbg_continue_from; [reflexivity|]. intros m e Hm. apply Hc. lia.
+Qed.
+
+(* a script is a policy that looks only at the number of the stop; appending Continue = continue for ever afterwards *)
+Lemma script_tail_continue cs : forall m e, length cs <= m -> script (cs ++ [Continue]) m e = Continue.
+Proof.
+  intros m e Hm. unfold script. rewrite last_last.
+  destruct (Nat.eq_dec m (length cs)) as [->|Hne].
+  - rewrite nth_middle. reflexivity.
+  - rewrite nth_overflow; [reflexivity|]. rewrite app_length; simpl. lia.
+Qed.
